@@ -5,6 +5,11 @@ Case:  np probe_1..probe_np  ops...        (see coq/C12/Model.v run_case / harne
   6 id (removeTerm) | 7 id n terms cond (addElement) | 8 id cond (setCondition) | 9 atom term n elems
   10 atom term n elems op rhs | 11 update | 12 reset | 13 m r (filter: atom % m == r) | 14 mode (visit: 0 all, 1 current)
 
+Provenance of arguments (harness only; model and oracle see values): when alias_mode(case) != 0 the harness passes the
+STORE'S OWN memory wherever the requested id list / symbol equals what the store currently holds for an item - first of
+all for the very id the call re-defines (td.addTerm(id, g, td.getTerm(id).terms()) after update(), the symbol's own
+symbol() pointer, the element's own terms()), otherwise the span of another stored term / element / atom.
+
 The oracle is an independent shadow table (python dicts) with a live-allocation expectation; it judges the
 implementation's observation alone.
 """
@@ -23,16 +28,18 @@ RULE = ('cases = (probe ids, history of TheoryData operations: addTerm x5, remov
         'reset, filter, accept(all|current) with a recursive printing visitor); ids dense (0..5) or sparse (0, gaps, up to 16384), '
         'compound nesting up to 6 (chains, cycles, dangling references), numbers incl. INT_MIN/-1/INT_MAX, empty id lists, symbols of '
         'arbitrary non-NUL bytes (and a NUL kind), redefinition within and across update(), deferred conditions set once/twice, filter, '
-        'reset-and-reuse, 0-4 marks; after every op the lookups of all probe ids, the atom list, currBegin and the live allocations are '
+        'reset-and-reuse, 0-4 marks; PROVENANCE of arguments: in 3 of 4 cases (hash of the case) the harness passes the store\'s own memory '
+        '(getTerm(i).begin(), getElement(i).begin(), atom->begin(), getTerm(i).symbol()) wherever the requested id list / symbol equals what the store holds - '
+        'the item being re-defined first (addTerm(id, g, getTerm(id).terms()) after update()), else another stored item; 8 % of the random operations and a stream '
+        '"own-span" (300 cases) re-define items from their own stored content; after every op the lookups of all probe ids, the atom list, currBegin and the live allocations are '
         'observed; non-trivial = history with >= 4 successful mutations and (a refused op or a mark or a visit or a removal); distinct = distinct case tuples')
 TRUSTED_BASE = ['allocator modelled as returning fresh 4-aligned addresses (the code never compares or reuses addresses); MemoryRegion (malloc/realloc) '
                 'growth of the id-indexed stacks modelled in closed form (size := max size (id+1))',
-                'harness/h_c12.cpp replaces global operator new/delete to count the library\'s live allocations and their kind',
+                'harness/h_c12.cpp replaces global operator new/delete to count the library\'s live allocations and their kind; its provenance switch (struct Own) decides from a hash of the case whether equal content is passed as the store\'s own memory',
                 'props/C12.py shadow table (oracle on the implementation)',
                 'the recursive visitor of the harness (marks an item before descending) is test scaffolding, modelled as visit_term/visit_elem/visit_atom']
 ASSUMPTIONS = ['ids, atoms and conditions are 32-bit unsigned values, numbers 32-bit signed; function ids < 2^31 (FuncData::base is int32_t), atoms < 2^31 (31-bit field)',
                'symbol contents are compared as C strings (TheoryTerm::symbol() is a const char*): a symbol with an embedded NUL comes back truncated (known finding symbol-nul)',
-               'arguments are values: spans that alias the store\'s own memory (e.g. re-adding a symbol from its own symbol() pointer) are outside the quantifier',
                'ids up to 16384 are exercised against the real code (the stacks realloc on every push: 2^20 is quadratic under ASan); the proofs are for all ids',
                'allocation failure (bad_alloc) is not modelled']
 ALLOWED_AXIOMS = []
@@ -41,7 +48,8 @@ DESIGN_REF = 'DESIGN.md section 5, C12'
 LEVEL_TEXT = ('Machine-checked (Coq): the concrete model of TheoryData (sparse id-indexed stacks of tagged 64-bit words / pointers, frame triple, heap '
               'ledger with allocation kinds) refines a plain table for every operation and every history; the ledger invariant (live cells = exactly '
               'the stored items, each owned once) holds after every operation including refused ones and the ledger is empty after reset; accept() '
-              'overloads visit exactly the stored referenced items (current mode: the new ones), the recursive printing visitor is sound, terminating and complete for the reference closure; the tagged word returns every 32-bit number. The model is tied to the '
+              'an item of an earlier step re-defined from its own stored content comes back with exactly that content (arguments are values; the harness passes '
+              'the store\'s own spans / symbols to check it); accept() overloads visit exactly the stored referenced items (current mode: the new ones), the recursive printing visitor is sound, terminating and complete for the reference closure; the tagged word returns every 32-bit number. The model is tied to the '
               'code by differential correspondence (sanitizer build, counting operator new/delete) and an independent shadow-table oracle.')
 LEVEL_NOTE = ('Trusted: Coq kernel/vm_compute, extraction+driver (sample cross-checked), harness, translator; allocator and realloc growth modelled; '
               'heap addresses are fresh and never reused in the model.')
@@ -138,18 +146,78 @@ def bstr(b):
     return bytes(x & 255 for x in b).decode('latin-1').encode('unicode_escape').decode()
 
 
+def alias_mode(c):
+    """harness/h_c12.cpp aliasMode: 0 = caller-owned arguments only; 1, 3 = pass the store's own span / symbol wherever the
+    requested content equals the stored one (the item being re-defined first); 2 = another stored item first"""
+    return (sum((v & 0xffffffff) * (i + 1) for i, v in enumerate(c)) & 0xffffffff) % 4
+
+
+def own_marks(c):
+    """per op: '' / '@own' (argument = the stored span/symbol of the very item being re-defined) / '@stored' (of another stored
+    item) - what the harness does in the case's alias mode (which of several equal candidates it takes does not matter here)"""
+    probes, ops = decode(c)
+    mode = alias_mode(c)
+    sh = Shadow()
+    marks = []
+    for o in ops:
+        k, m = o[0], ''
+        if mode != 0:
+            if k in (2, 3):
+                want = cut0(o[2])
+                if k == 3 or 0 not in o[2]:
+                    t0 = sh.T.get(o[1] % 2 ** 32)
+                    mine = t0 is not None and t0[0] == 's' and cut0(t0[1]) == want
+                    oth = any(t[0] == 's' and cut0(t[1]) == want for i, t in sh.T.items() if i != o[1] % 2 ** 32)
+                    m = '@own' if mine and (mode != 2 or not oth) else ('@stored' if oth else ('@own' if mine else ''))
+            elif k in (4, 5, 7, 9, 10):
+                lst = [x % 2 ** 32 for x in (o[3] if k != 7 else o[2])]
+                if lst:
+                    i = o[1] % 2 ** 32
+                    mine = (k in (4, 5) and sh.T.get(i, ('',))[0] == 'c' and sh.T[i][2] == lst) or (k == 7 and i in sh.E and sh.E[i][0] == lst)
+                    oth = any(t[0] == 'c' and t[2] == lst for j, t in sh.T.items() if not (k in (4, 5) and j == i)) or \
+                        any(e[0] == lst for j, e in sh.E.items() if not (k == 7 and j == i)) or any(a[2] == lst for a in sh.A)
+                    m = '@own' if mine and (mode != 2 or not oth) else ('@stored' if oth else ('@own' if mine else ''))
+        marks.append(m)
+        if k != 14:
+            sh.apply(norm_op(o))
+    return marks
+
+
+def norm_op(o):
+    """ids as the 32-bit values the store sees (the shadow compares lists of them)"""
+    k = o[0]
+    u = lambda x: x % 2 ** 32
+    if k in (1,):
+        return (1, u(o[1]), o[2])
+    if k in (2, 3):
+        return (k, u(o[1]), list(o[2]))
+    if k in (4, 5):
+        return (k, u(o[1]), o[2], [u(x) for x in o[3]])
+    if k == 7:
+        return (7, u(o[1]), [u(x) for x in o[2]], u(o[3]))
+    if k == 9:
+        return (9, o[1], u(o[2]), [u(x) for x in o[3]])
+    if k == 10:
+        return (10, o[1], u(o[2]), [u(x) for x in o[3]], u(o[4]), u(o[5]))
+    return o
+
+
 def describe(c):
     probes, ops = decode(c)
+    marks = own_marks(c)
     out = []
-    for o in ops:
+    for o, m in zip(ops, marks):
         k = o[0]
         if k in (2, 3):
-            out.append('%s(%d,"%s")' % (NAMES[k], o[1], bstr(o[2])))
+            out.append('%s(%d,"%s")%s' % (NAMES[k], o[1], bstr(o[2]), m))
         elif k == 14:
             out.append('visit(%s)' % ('current' if o[1] else 'all'))
         else:
-            out.append('%s(%s)' % (NAMES[k], ','.join(str(x) for x in o[1:])))
-    return 'probes=%s ops=[%s]' % (probes, ', '.join(out))
+            out.append('%s(%s)%s' % (NAMES[k], ','.join(str(x) for x in o[1:]), m))
+    note = ''
+    if any(marks):
+        note = '   [@own: the argument is the store\'s own span/symbol of the item being re-defined, @stored: of another stored item]'
+    return 'probes=%s ops=[%s]%s' % (probes, ', '.join(out), note)
 
 
 # ------------------------------------------------------------------------------------------------
@@ -525,7 +593,119 @@ def id_pool(rnd, tier='quick'):
     return sorted(set([0, 3, 16384, rnd.choice([9999, 12000, 16383])]))
 
 
-def gen_history(rnd, nops, pool, nul=False, heavy_redefine=False):
+def own_content_op(rnd, sh, pool):
+    """an operation whose id list / symbol EQUALS content the store holds right now (shadow sh), so that the harness can pass
+    the store's own memory: mostly the very item being re-defined (new function symbol / tuple type / condition, same
+    arguments), sometimes another id or another kind of item built from a stored list.  None if nothing suitable is stored."""
+    comp = [(i, t) for i, t in sh.T.items() if t[0] == 'c' and t[2]]
+    syms = [(i, t) for i, t in sh.T.items() if t[0] == 's' and 0 not in t[1]]
+    elems = [(i, e) for i, e in sh.E.items() if e[0]]
+    atoms = [a for a in sh.A if a[2]]
+    lists = [t[2] for _, t in comp] + [e[0] for _, e in elems] + [a[2] for a in atoms]
+    r = rnd.random()
+    old_first = lambda xs, isnew: sorted(xs, key=lambda x: isnew(x[0]))       # items of an earlier step can be re-defined
+    if r < 0.40 and comp:
+        c2 = old_first(comp, sh.new_term)
+        i, t = c2[0] if rnd.random() < 0.6 else rnd.choice(comp)
+        names = [j for j, u in sh.T.items() if u[0] == 's']
+        if rnd.random() < 0.5:
+            return (4, i, rnd.choice(names) if names else rnd.choice(pool), list(t[2]))
+        return (5, i, rnd.choice([-1, -2, -3]), list(t[2]))
+    if r < 0.55 and syms:
+        c2 = old_first(syms, sh.new_term)
+        i, t = c2[0] if rnd.random() < 0.6 else rnd.choice(syms)
+        j = i if rnd.random() < 0.75 else rnd.choice(pool)
+        return (rnd.choice([2, 3]), j, list(t[1]))
+    if r < 0.75 and elems:
+        c2 = old_first(elems, sh.new_elem)
+        i, e = c2[0] if rnd.random() < 0.6 else rnd.choice(elems)
+        return (7, i, list(e[0]), rnd.choice([0, 1, 5, DEFERRED, e[1]]))
+    if not lists:
+        return None
+    lst = list(rnd.choice(lists))
+    k = rnd.random()
+    if k < 0.35:
+        if rnd.random() < 0.5:
+            return (4, rnd.choice(pool), rnd.choice(pool), lst)
+        return (5, rnd.choice(pool), rnd.choice([-1, -2, -3]), lst)
+    if k < 0.6:
+        return (7, rnd.choice(pool), lst, rnd.choice([0, 3, DEFERRED]))
+    t = rnd.choice(list(sh.T)) if sh.T else rnd.choice(pool)
+    if rnd.random() < 0.5:
+        return (9, rnd.choice([0, 1, 2, 3]), t, lst)
+    return (10, rnd.choice([0, 1, 2, 3]), t, lst, rnd.choice(pool), rnd.choice(pool))
+
+
+def with_alias(probes, ops, modes=(1, 2, 3), pool_extra=(0, 1, 2, 3, 5, 7, 9, 11, 13, 6, 4, 8)):
+    """encode, extending the probe list until the case runs in one of the given aliasing modes of the harness"""
+    c = encode(probes, ops)
+    pr = list(probes)
+    for x in pool_extra:
+        if alias_mode(c) in modes:
+            break
+        pr.append(x)
+        c = encode(pr, ops)
+    return c
+
+
+def own_span_cases(rnd, n):
+    """step 1 builds a store (symbols, numbers, function and tuple terms with 1..9 arguments, elements, atoms); update();
+    step 2 re-defines items from their OWN stored content (same arguments, new name / type / condition), builds other items
+    from stored lists, removes and re-adds, visits; sometimes a third step re-defines again (reading the block that the
+    previous re-definition allocated)."""
+    out = []
+    for _ in range(n):
+        gap = rnd.choice([1, 1, 1, 3, 17])
+        nsym = rnd.randint(1, 3)
+        ops = []
+        syms = [k * gap for k in range(nsym)]
+        for i in syms:
+            ops.append((rnd.choice([2, 3]), i, rand_sym(rnd) or [102]))
+        nums = [(nsym + k) * gap for k in range(rnd.randint(1, 3))]
+        for i in nums:
+            ops.append((1, i, rnd.choice(NUMS)))
+        base = [] + syms + nums
+        comps = []
+        nxt = (nsym + len(nums)) * gap
+        for _k in range(rnd.randint(1, 4)):
+            args = [rnd.choice(base + comps) for _a in range(rnd.choice([1, 1, 2, 3, 4, 6, 9]))]
+            if rnd.random() < 0.5:
+                ops.append((4, nxt, rnd.choice(syms), args))
+            else:
+                ops.append((5, nxt, rnd.choice([-1, -2, -3]), args))
+            comps.append(nxt)
+            nxt += gap
+        els = []
+        for k in range(rnd.randint(1, 3)):
+            ops.append((7, k * gap, [rnd.choice(base + comps) for _a in range(rnd.choice([1, 2, 3, 5]))], rnd.choice([0, 2, DEFERRED])))
+            els.append(k * gap)
+        for k in range(rnd.randint(0, 2)):
+            es = [rnd.choice(els) for _a in range(rnd.choice([1, 2, 3]))]
+            ops.append((9, k + 1, rnd.choice(syms), es) if rnd.random() < 0.5 else (10, k + 1, rnd.choice(syms), es, rnd.choice(syms), rnd.choice(base)))
+        ops.append((11,))
+        pool = sorted(set(base + comps + els + [nxt, nxt + gap]))
+        sh = Shadow()
+        for o in ops:
+            sh.apply(o)
+        for step in range(rnd.choice([1, 1, 2])):
+            for _k in range(rnd.randint(2, 6)):
+                o = own_content_op(rnd, sh, pool)
+                if o is None or rnd.random() < 0.15:
+                    o = rnd.choice([(6, rnd.choice(comps + syms)), (14, rnd.randint(0, 1)), (1, rnd.choice(pool), 5)])
+                if o[0] != 14:
+                    sh.apply(o)
+                ops.append(o)
+            ops.append(rnd.choice([(14, 0), (14, 1), (11,)]))
+        ops.append((14, 0))
+        probes = rnd.sample(pool, min(len(pool), 4))
+        for x in comps[:2] + els[:1]:
+            if x not in probes:
+                probes.append(x)
+        out.append(with_alias(probes, ops))
+    return out
+
+
+def gen_history(rnd, nops, pool, nul=False, heavy_redefine=False, own=0.08):
     """Generate ops while simulating the shadow so that ops hit interesting states."""
     sh = Shadow()
     ops = []
@@ -552,7 +732,10 @@ def gen_history(rnd, nops, pool, nul=False, heavy_redefine=False):
         r = rnd.random()
         if heavy_redefine and sh.T and rnd.random() < 0.35:
             r = rnd.random() * 0.42
-        if r < 0.10:
+        o = own_content_op(rnd, sh, pool) if rnd.random() < own else None
+        if o is not None:
+            pass
+        elif r < 0.10:
             i = some_id(rnd.random() < 0.35, sh.T)
             o = (1, i, rnd.choice(NUMS) if rnd.random() < 0.7 else rnd.randint(INT_MIN, INT_MAX))
         elif r < 0.20:
@@ -657,6 +840,21 @@ FIXED = [
     # atom id wider than the 31-bit field
     ([0, 9, 4294967295, 0, 0, 9, 2147483648, 0, 0, 13, 1, 0], 'atom-31bit'),
 ]
+# seeded change C12-r7 / repairs c8d69a9, 7625ba8: an item of an earlier step re-defined from its OWN stored content (the harness
+# passes the store's span / symbol in these cases: alias_mode != 0)
+FIXED += [(with_alias(pr, ops, (1, 3)), 'own-content') for pr, ops in [
+    # 10 := f(1..6), 11 := (1..6); update; 10 := g(own args), 11 := {own args}
+    ([10, 11, 12], [(1, i, 11 * i) for i in range(1, 7)] + [(2, 7, [102]), (2, 8, [103]), (4, 10, 7, [1, 2, 3, 4, 5, 6]), (5, 11, -1, [1, 2, 3, 4, 5, 6]),
+                    (7, 0, [10, 11], 0), (9, 1, 7, [0]), (11,), (4, 10, 8, [1, 2, 3, 4, 5, 6]), (5, 11, -3, [1, 2, 3, 4, 5, 6]), (2, 12, [104]), (14, 0)]),
+    # the symbol from its own symbol() pointer (StringSpan and const char* overloads), then used again
+    ([0, 1], [(2, 0, [97, 95, 114, 97, 116, 104, 101, 114, 95, 108, 111, 110, 103, 95, 115, 121, 109, 98, 111, 108]), (1, 1, 7), (11,),
+              (2, 0, [97, 95, 114, 97, 116, 104, 101, 114, 95, 108, 111, 110, 103, 95, 115, 121, 109, 98, 111, 108]), (11,),
+              (3, 0, [97, 95, 114, 97, 116, 104, 101, 114, 95, 108, 111, 110, 103, 95, 115, 121, 109, 98, 111, 108]), (4, 2, 0, [1])]),
+    # the element from its own terms() with a new condition
+    ([0, 1], [(2, 0, [112]), (1, 1, 7), (7, 0, [0, 1, 1, 0, 1, 0, 1], 3), (9, 1, 0, [0]), (11,), (7, 0, [0, 1, 1, 0, 1, 0, 1], 9), (7, 1, [0, 1, 1, 0, 1, 0, 1], DEFERRED), (14, 0)]),
+    # refused inside the step (own span passed, nothing may change or leak), then accepted after the mark; other ids from the same span
+    ([3, 4], [(1, 0, 1), (2, 1, [102]), (4, 3, 1, [0, 0, 3]), (4, 3, 1, [0, 0, 3]), (11,), (5, 3, -2, [0, 0, 3]), (4, 4, 1, [0, 0, 3]), (7, 2, [0, 0, 3], 0), (9, 5, 1, [0, 0, 3]), (14, 0)]),
+]]
 # the shapes that are outside the stated assumptions are kept out of the default stream
 OUT_OF_ASSUMPTIONS = ('funcid-signbit', 'atom-31bit')
 
@@ -671,6 +869,9 @@ def gen(seed, tier):
     for depth in range(0, 7):
         for base, gap in ((0, 1), (1, 3), (5, 100)):
             out.append((chain_case(rnd, depth, base, gap), {'kind': 'chain-depth'}))
+    for c in own_span_cases(rnd, {'quick': 300, 'thorough': 6000, 'search': 400}.get(tier, 300)):
+        out.append((c, {'kind': 'own-span'}))
+    total += {'quick': 300, 'thorough': 6000, 'search': 400}.get(tier, 300)      # on top of the random stream
     while len(out) < total:
         pool = id_pool(rnd, tier)
         big = max(pool) > 1100
